@@ -29,7 +29,9 @@ AddToCache(c, k, v, maxlen) ==
          IF Len(c1) < maxlen THEN <<"ok", Append(c1, <<k, v>>)>>
          ELSE <<"RuntimeError", c1>>
 
-FreshOutcome(fresh, ef) == IF fresh = "valid" THEN "True" ELSE IF ef THEN "Raise" ELSE "False"
+\* Ground truth of a key: "valid", "invalid", or "broken" - valid_against_schema against a schema file that is itself not
+\* a valid schema: the SchemaError is raised whichever way expect_failure is set, and nothing is remembered.
+FreshOutcome(fresh, ef) == IF fresh = "valid" THEN "True" ELSE IF fresh = "broken" \/ ef THEN "Raise" ELSE "False"
 
 \* schema_valid / valid_against_schema share this shape (after "fix: a cached failure was
 \* returned instead of raising when failure is expected"): a cached False is not served
@@ -37,6 +39,7 @@ FreshOutcome(fresh, ef) == IF fresh = "valid" THEN "True" ELSE IF ef THEN "Raise
 \* @type: (Seq(<<Str, Bool>>), Str, Bool, Str, Int) => <<Str, Seq(<<Str, Bool>>)>>;
 Validate(c, k, ef, fresh, maxlen) ==
     IF HasKey(c, k) /\ (Lookup(c, k) \/ ~ef) THEN <<IF Lookup(c, k) THEN "True" ELSE "False", c>>
+    ELSE IF fresh = "broken" THEN <<"Raise", c>>
     ELSE IF fresh = "valid" THEN
             LET a == AddToCache(c, k, TRUE, maxlen) IN <<IF a[1] = "ok" THEN "True" ELSE a[1], a[2]>>
     ELSE IF ~ef THEN
